@@ -2,7 +2,7 @@
 """Run the registered checks against the seeded defects kept under /verif/seeded (sensitivity evidence).
 
 Every seeded/<PROP>/<name>/ holds patch.diff (a change to dash-live that breaks PROP yet passes the pinned tests),
-the author's stand-alone demonstration and meta.json.  For each one a scratch copy of /repo's working tree is made
+the author's stand-alone demonstration and meta.json.  For each one a scratch copy of /repo's HEAD is made
 outside /repo and /verif, the patch applied there, and the check run with VERIF_REPO pointing at the copy (the
 same code path as `git -C /repo apply` + check + `git -C /repo checkout -- .`, without touching /repo, so it can
 run next to other checks).  Results go to seeded/results.json; the copy is removed afterwards.
@@ -44,7 +44,8 @@ def run_one(mdir: Path, prop: str, tier: str, seed: int, workers: int) -> dict:
     shutil.rmtree(scratch, ignore_errors=True)
     shutil.rmtree(out, ignore_errors=True)
     RUN_ROOT.mkdir(parents=True, exist_ok=True)
-    subprocess.run(["rsync", "-a", "--exclude", ".git", "/repo/", str(scratch) + "/"], check=True)
+    scratch.mkdir(parents=True)
+    subprocess.run(f"git -C /repo archive HEAD | tar -x -C {scratch}", shell=True, check=True)
     ap = subprocess.run(["git", "apply", "--whitespace=nowarn", str(mdir / "patch.diff")], cwd=scratch,
                         capture_output=True, text=True)
     if ap.returncode != 0:
